@@ -467,3 +467,53 @@ func loopShapeOf(atoms map[string]bool, coll string) loopShape {
 	s.Exhausted = (rangeGen && atoms["!(((i* + 1) + 1) < "+l+")"]) || (idxGen && atoms["!((i* + 1) < "+l+")"])
 	return s
 }
+
+// timeInconsistent: the instant comparisons of the path (Before / After / Equal / Compare among the clock reading and
+// the parsed bounds) admit no ordering of the instants — e.g. !(now < nb), now < noa and !(nb < noa).
+func timeInconsistent(t *Terminal) bool {
+	tfs := timeFacts(t)
+	if len(tfs) < 3 {
+		return false
+	}
+	idx := map[string]int{}
+	var names []string
+	for _, tc := range tfs {
+		for _, n := range []string{tc.a, tc.b} {
+			if _, ok := idx[n]; !ok {
+				idx[n] = len(names)
+				names = append(names, n)
+			}
+		}
+	}
+	n := len(names)
+	if n < 3 || n > 5 {
+		return false
+	}
+	rank := make([]int, n)
+	var try func(i int) bool
+	try = func(i int) bool {
+		if i == n {
+			for _, tc := range tfs {
+				d := rank[idx[tc.a]] - rank[idx[tc.b]]
+				ord := 0
+				if d < 0 {
+					ord = -1
+				} else if d > 0 {
+					ord = 1
+				}
+				if v, ok := evalCmp(tc, tc.a, tc.b, ord); ok && v != tc.pol {
+					return false
+				}
+			}
+			return true
+		}
+		for r := 0; r < n; r++ {
+			rank[i] = r
+			if try(i + 1) {
+				return true
+			}
+		}
+		return false
+	}
+	return !try(0)
+}
